@@ -479,6 +479,11 @@ fn dec_payload(s: &str) -> Option<Option<V>> {
         "M" => Some(V::Map(vec![])),
         "Qi" => Some(V::Seq(vec![V::Int(1)])),
         "Qr" => Some(V::Seq(vec![V::Str("info".into()), V::Seq(vec![])])),
+        "Qe" => Some(V::Seq(vec![])),
+        "Qf" => Some(V::Seq(vec![V::Map(vec![
+            ("kind".to_owned(), V::Str("threshold".into())),
+            ("level".to_owned(), V::Str("info".into())),
+        ])])),
         _ => {
             if let Some(r) = s.strip_prefix('I') {
                 Some(V::Int(r.parse().ok()?))
@@ -1382,11 +1387,61 @@ fn app_path(a: &App, rest: &[&str]) -> Vec<Step> {
     p
 }
 
+/// Every field name that is legal in SOME section, with a value of the type it has there. An
+/// unknown-key injection uses the fresh name `zzz` and each of these names, wherever the name is
+/// NOT a field of the target section (a helper shared between sections must not swallow another
+/// section's reserved key).
+fn foreign_keys() -> Vec<(&'static str, Vec<String>)> {
+    let st = |x: &str| format!("S{}", enc_str(x));
+    vec![
+        ("kind", vec![st("x")]),
+        ("filters", vec!["Qe".into(), "Qf".into(), "I7".into()]),
+        ("appenders", vec!["Qe".into()]),
+        ("level", vec![st("info")]),
+        ("additive", vec!["B1".into()]),
+        ("path", vec![st("p.log")]),
+        ("append", vec!["B1".into()]),
+        ("encoder", vec!["M".into()]),
+        ("policy", vec!["M".into()]),
+        ("trigger", vec!["M".into()]),
+        ("roller", vec!["M".into()]),
+        ("pattern", vec![st("{m}")]),
+        ("base", vec!["I0".into()]),
+        ("count", vec!["I1".into()]),
+        ("limit", vec!["I1".into()]),
+        ("interval", vec!["I1".into()]),
+        ("modulate", vec!["B1".into()]),
+        ("max_random_delay", vec!["I0".into()]),
+        ("min_size", vec!["I1".into()]),
+        ("target", vec![st("stdout")]),
+        ("tty_only", vec!["B0".into()]),
+        ("refresh_rate", vec![st("30s")]),
+        ("root", vec!["M".into()]),
+        ("loggers", vec!["M".into()]),
+    ]
+}
+
+/// unknown-key injections for one denying section: `base` is the path of the section, `fields`
+/// its own field names
+fn unknown_keys(v: &mut Vec<(&'static str, Vec<Step>, String)>, base: &[Step], fields: &[&str]) {
+    for (name, payloads) in foreign_keys() {
+        if fields.contains(&name) {
+            continue;
+        }
+        for p in payloads {
+            let mut path = base.to_vec();
+            path.push(k(name));
+            v.push(("unk", path, p));
+        }
+    }
+}
+
 /// (class, path, payload) choices applicable to the configuration
 fn injections(cfg: &Cfg) -> Vec<(&'static str, Vec<Step>, String)> {
     let mut v: Vec<(&'static str, Vec<Step>, String)> = vec![];
     let st = |x: &str| format!("S{}", enc_str(x));
     v.push(("unk", vec![k("zzz")], "I1".into()));
+    unknown_keys(&mut v, &[], &["refresh_rate", "root", "appenders", "loggers"]);
     v.push(("typ", vec![k("refresh_rate")], "I30".into()));
     v.push(("typ", vec![k("refresh_rate")], st("30")));
     v.push(("typ", vec![k("appenders")], "Qi".into()));
@@ -1398,6 +1453,7 @@ fn injections(cfg: &Cfg) -> Vec<(&'static str, Vec<Step>, String)> {
     }
     if cfg.root.is_some() {
         v.push(("unk", vec![k("root"), k("zzz")], "I1".into()));
+        unknown_keys(&mut v, &[k("root")], &["level", "appenders"]);
         v.push(("typ", vec![k("root"), k("level")], "I3".into()));
         v.push(("typ", vec![k("root"), k("level")], st("verbose")));
         v.push(("typ", vec![k("root"), k("appenders")], st("a")));
@@ -1405,6 +1461,7 @@ fn injections(cfg: &Cfg) -> Vec<(&'static str, Vec<Step>, String)> {
     for l in &cfg.loggers {
         let p = |rest: &str| vec![k("loggers"), k(&l.name), k(rest)];
         v.push(("unk", p("zzz"), "B1".into()));
+        unknown_keys(&mut v, &[k("loggers"), k(&l.name)], &["level", "appenders", "additive"]);
         v.push(("typ", p("additive"), st("true")));
         v.push(("typ", p("additive"), "I1".into()));
         v.push(("typ", p("level"), "Qi".into()));
@@ -1414,6 +1471,15 @@ fn injections(cfg: &Cfg) -> Vec<(&'static str, Vec<Step>, String)> {
     }
     for a in &cfg.appenders {
         v.push(("unk", app_path(a, &["zzz"]), "I1".into()));
+        unknown_keys(
+            &mut v,
+            &app_path(a, &[]),
+            match a.kind {
+                0 => &["kind", "filters", "target", "encoder", "tty_only"],
+                1 => &["kind", "filters", "path", "encoder", "append"],
+                _ => &["kind", "filters", "path", "append", "encoder", "policy"],
+            },
+        );
         v.push(("kind", app_path(a, &["kind"]), st("bogus")));
         v.push(("typ", app_path(a, &["kind"]), "I5".into()));
         v.push(("miss", app_path(a, &["kind"]), "X".into()));
@@ -1425,6 +1491,7 @@ fn injections(cfg: &Cfg) -> Vec<(&'static str, Vec<Step>, String)> {
         }
         if let Some(e) = &a.enc {
             v.push(("unk", app_path(a, &["encoder", "zzz"]), "I1".into()));
+            unknown_keys(&mut v, &app_path(a, &["encoder"]), if e.json { &["kind"] } else { &["kind", "pattern"] });
             v.push(("kind", app_path(a, &["encoder", "kind"]), st("bogus")));
             v.push(("typ", app_path(a, &["encoder", "kind"]), "I1".into()));
             if !e.json {
@@ -1468,6 +1535,24 @@ fn injections(cfg: &Cfg) -> Vec<(&'static str, Vec<Step>, String)> {
         }
         if a.kind == 2 {
             v.push(("unk", app_path(a, &["policy", "zzz"]), "I1".into()));
+            unknown_keys(&mut v, &app_path(a, &["policy"]), &["kind", "trigger", "roller"]);
+            unknown_keys(
+                &mut v,
+                &app_path(a, &["policy", "trigger"]),
+                match &a.trig {
+                    Trig::Size(_) => &["kind", "limit"],
+                    Trig::Time(..) => &["kind", "interval", "modulate", "max_random_delay"],
+                    Trig::OnStartUp(_) => &["kind", "min_size"],
+                },
+            );
+            unknown_keys(
+                &mut v,
+                &app_path(a, &["policy", "roller"]),
+                match &a.roll {
+                    Roll::Delete => &["kind"],
+                    Roll::Window(..) => &["kind", "pattern", "base", "count"],
+                },
+            );
             v.push(("kind", app_path(a, &["policy", "kind"]), st("bogus")));
             v.push(("typ", app_path(a, &["policy"]), st("x")));
             v.push(("miss", app_path(a, &["policy"]), "X".into()));
@@ -1491,6 +1576,10 @@ fn injections(cfg: &Cfg) -> Vec<(&'static str, Vec<Step>, String)> {
                     v.push((cls, app_path(a, &["policy", "trigger", "interval"]), "I0".into()));
                     v.push(("big", app_path(a, &["policy", "trigger", "interval"]), "I9223372036854775807".into()));
                     v.push(("num", app_path(a, &["policy", "trigger", "interval"]), "I-1".into()));
+                    // string forms whose number does not fit i64: rejected, never wrapped
+                    v.push(("num", app_path(a, &["policy", "trigger", "interval"]), st("9223372036854775808")));
+                    v.push(("num", app_path(a, &["policy", "trigger", "interval"]), st("18446744073709551615 seconds")));
+                    v.push(("num", app_path(a, &["policy", "trigger", "interval"]), st("9223372036854775808 days")));
                     v.push(("num", app_path(a, &["policy", "trigger", "max_random_delay"]), "I-1".into()));
                     v.push(("typ", app_path(a, &["policy", "trigger", "interval"]), st("1 fortnight")));
                     v.push(("typ", app_path(a, &["policy", "trigger", "modulate"]), st("yes")));
